@@ -391,6 +391,23 @@ package jp
 //@       invariant [C06 bounds] -1 <= i && i < len(tv)
 //@     loop 2
 //@       invariant [C06 bounds] -1 <= i && 2 * (i + 1) <= len(ns)
+// The same clause for a gen.Array.
+//@   region rmGen = case gen.Array
+//@     let n = len(tv)
+//@     let start0 = start
+//@     let end0 = end
+//@     let step0 = step
+//@     let lo = spec.SliceLo(start, len(tv))
+//@     let hi = spec.SliceHi(end, len(tv))
+//@     let c0 = changed
+//@     assume -1099511627776 <= step && step <= 1099511627776
+//@     assert [C13 slice-none] 0 < step0 && hi <= lo ==> changed == c0
+//@     loop 0
+//@       invariant [C13 slice-none] 0 < step0 && hi <= lo ==> changed == c0
+//@     loop 1
+//@       invariant [C06 bounds] -1 <= i && i < len(tv)
+//@     loop 2
+//@       invariant [C06 bounds] -1 <= i && 2 * (i + 1) <= len(ns)
 
 // ---------------------------------------------------------------------------
 // Text form of equations (C14): an operand is printed inside parentheses whenever printing it bare would let the parser
